@@ -117,6 +117,8 @@ Match(c, res, logged) ==
 BulkOK(b) ==
   CASE b.obj = "counter" -> b.final = b.init + b.sum
     [] b.obj = "ticket"  -> b.final = b.init + b.ops /\ b.distinct = b.ops          \* Increment only: every call returned a different running total
+    [] b.obj = "drain"   -> b.drained + b.final = b.sum                               \* Add and Reset mixed: what the Resets returned plus what is left = all adds
+    [] b.obj = "tas"     -> b.winners = b.iters                                      \* flag as test-and-set: of the Sets racing for an unset flag exactly one returns "was unset"
     [] b.obj = "gas"     -> \A x \in ToSet(b.charges) : P19_OneSchedule(x.c, x.m, x.n) \* every distinct (charge, m, n) seen under repricing
     [] OTHER -> b.final \in ToSet(b.lasts)
 
